@@ -435,6 +435,9 @@ class Gen:
                 return ('bin', op, l, self.gen(ctx, 'bool', d))
             if r < 0.78:
                 return ('un', '!', self.gen(ctx, 'bool', d))
+            if ctx.selfobj is not None and r < 0.84:
+                self.k('in_super')
+                return ('insuper', ('str', self.r.choice(FIELDS)))
             if r < 0.9:
                 o = self.gen(ctx, ('obj', self.obj_shape()), d)
                 nm = ('str', self.r.choice(FIELDS))
@@ -572,18 +575,23 @@ class Gen:
             fty = self.fun_type()
             lctx = Ctx(vars_, None, None, None, None, None, ctx.in_fun)
             ps = self.params_for(lctx, fty, depth)
-            lname = self.r.choice(VARS)
-            members.append(('local', lname, ps, self.gen_fun_body(lctx, fty, ps, depth + 2)))
-            vars_[lname] = fty
-            self.k('object_local_function')
+            used_l = [m[1] for m in members if m[0] == 'local']
+            cand = [v for v in VARS if v not in used_l]
+            lname = self.r.choice(cand) if cand else None
+            if lname is not None:
+                members.append(('local', lname, ps, self.gen_fun_body(lctx, fty, ps, depth + 2)))
+                vars_[lname] = fty
+                self.k('object_local_function')
         if self.r.random() < 0.12:
             free = [f for f in FIELDS if f not in whole]
             if free:
                 fty = self.fun_type()
                 lctx = Ctx(vars_, None, None, None, None, None, ctx.in_fun)
                 ps = self.params_for(lctx, fty, depth)
-                members.append(('field', self.r.choice(['id', 'str']), self.r.choice(free), False, self.r.choice(['::', '::', ':', ':::']) if False else '::',
-                                ps, self.gen_fun_body(lctx, fty, ps, depth + 2)))
+                mname = self.r.choice(free)
+                members.append(('field', self.r.choice(['id', 'str']), mname, False, '::', ps, self.gen_fun_body(lctx, fty, ps, depth + 2)))
+                whole = dict(whole)
+                whole[mname] = fty          # the name is taken (nobody reads it: its type is a function type)
                 self.k('method_field')
         order = list(shape)
         self.r.shuffle(order)
@@ -714,7 +722,7 @@ class Printer:
         if f == 'block':
             ind = self.r.choice(['  ', '\t', ' '])
             body = ''.join(ind + l + '\n' for l in s[:-1].split('\n'))
-            return '|||\n' + body + self.r.choice(['', ' ']) + '|||'
+            return '|||\n' + body + ('' if len(ind) == 1 else self.r.choice(['', ' '])) + '|||'
         if f == 'vdq':
             return '@"' + s.replace('"', '""') + '"'
         if f == 'vsq':
@@ -956,7 +964,8 @@ def gen_reuse_program(rng):
     else:
         bind = 'local b = { } + %s;' % obj; k('bound_sum')
     exts = ['{ %s: %s }' % (n, r.choice(['2', '20', '-1'])), '{ %s+: 1 }' % n, '{ %s+: %s }' % (t, '1' if not deriv.startswith(('[', '"', '{')) else ('[0]' if deriv.startswith('[') else ('"!"' if deriv.startswith('"') else '{ z: 0 }'))),
-            '{ %s:: 7 }' % n, '{ %s::: 8 }' % n, '{ %s: super.%s + self.%s }' % (w, n, n), '{ local q = super.%s, %s: q + 1 }' % (n, n), '{ }']
+            '{ %s:: 7 }' % n, '{ %s::: 8 }' % n, '{ %s: super.%s + self.%s }' % (w, n, n), '{ local q = super.%s, %s: q + 1 }' % (n, n), '{ }',
+            '{ %s: ["%s" in super, "zz" in super, super["%s"]] }' % (w, n, n)]
     e1, e2 = r.sample(exts, 2)
     obs = ['b.%s' % t, 'b.%s' % n, '(b + %s).%s' % (e1, t), '(b + %s + %s).%s' % (e1, e2, t), '(b + (%s + %s)).%s' % (e1, e2, t),
            'b %s.%s' % (e1, t), '(%s + b).%s' % ('{ %s: 99 }' % n, t), 'b + %s' % e1, 'std.objectFields(b + %s)' % e2,
